@@ -176,6 +176,16 @@ func texttraceMain(args []string) int {
 			}
 		}
 	}
+	// (1c) long ASCII bodies whose only non-ASCII bytes come late (C11 beyond any sampling window)
+	for _, grp := range [][]byte{{0xE9}, {0x85}, {0x9F}, {0xC3, 0xA9}, {0xC3, 'x'}, {0xEF, 0xBF, 0xBD}, {0xF0, 0x9F, 0x98, 0x80}, {0xF0, 0x9F, 0x98}, {0xFF}} {
+		for _, p := range []int{1023, 1024, 4095, 4096, 8192, 11000} {
+			in := append([]byte{}, long...)
+			copy(in[p:], grp)
+			for _, lim := range []int64{0, int64(p + len(grp)), int64(p + len(grp) + 50), int64(p + 1)} {
+				emit(in, lim, "long-late-nonascii")
+			}
+		}
+	}
 	// (2) prose cut at every limit
 	for name, p := range prose {
 		in := []byte(p)
